@@ -182,6 +182,7 @@ func VxC06Store() {
 	for i := range atoms {
 		for j := 0; j < i; j++ {
 			if !vxAtomEq(atoms[i], atoms[j]) && atoms[i].Predicate == atoms[j].Predicate && atoms[i].Hash() == atoms[j].Hash() {
+				vxNoFnvCollision(atoms[i], atoms[j])
 				vxTag("hash-equal-distinct-atoms")
 			}
 		}
@@ -315,6 +316,7 @@ func VxC06Merge() {
 	for i := range atoms {
 		for j := 0; j < i; j++ {
 			if !vxAtomEq(atoms[i], atoms[j]) && atoms[i].Predicate == atoms[j].Predicate && atoms[i].Hash() == atoms[j].Hash() {
+				vxNoFnvCollision(atoms[i], atoms[j])
 				vxTag("hash-equal-distinct-atoms")
 			}
 		}
@@ -359,6 +361,28 @@ func VxC06Merge() {
 	}
 }
 
+// vxNoFnvCollision: part of the H-fnv contract. The hash of a name, string or byte string is an
+// FNV-64 value, which the engine treats as an uninterpreted injective function; a model in which
+// such a value equals the payload of a number/duration/time (or pairs up inside an atom hash)
+// describes a collision the real FNV function does not have for these inputs, and its native
+// replay cannot reproduce. Two hash-equal distinct atoms are therefore only considered when the
+// arguments in which they differ are payload-hashed on both sides.
+func vxNoFnvCollision(a, b ast.Atom) {
+	fnv := func(t ast.BaseTerm) bool {
+		c, ok := t.(ast.Constant)
+		return ok && (c.Type == ast.NameType || c.Type == ast.StringType || c.Type == ast.BytesType)
+	}
+	for k := range a.Args {
+		if k < len(b.Args) {
+			ca, ok1 := a.Args[k].(ast.Constant)
+			cb, ok2 := b.Args[k].(ast.Constant)
+			if ok1 && ok2 && !vxConstEq(ca, cb) && (fnv(ca) || fnv(cb)) {
+				vxAssume(false)
+			}
+		}
+	}
+}
+
 // VxC06Teeing: a teeing store over a base that already holds facts.
 func VxC06Teeing() {
 	shapes := vxShapeSet(vxParam("SHAPES", 0))
@@ -369,6 +393,7 @@ func VxC06Teeing() {
 	a := vxMkAtom("a", 1, shapes, 2)
 	inBase := vxAtomEq(a, b0)
 	if !inBase && a.Predicate == b0.Predicate && a.Hash() == b0.Hash() {
+		vxNoFnvCollision(a, b0)
 		vxTag("hash-equal-distinct-atoms")
 	}
 	got := t.Add(a)
